@@ -2,6 +2,7 @@ package explorer
 
 import (
 	"fmt"
+	"math/rand"
 	"reflect"
 	"strings"
 
@@ -35,15 +36,47 @@ func tierOf(tier string) tierCfg {
 	return tierCfg{fullLimit: 6000, k: 2, budget: 40000}
 }
 
+// sOpts tunes the struct enumeration.
+type sOpts struct {
+	Wide  bool
+	Seed  int64
+	RandN int
+	K     int // 0: tier default
+	Bases []int
+	Only  func(path string) bool
+}
+
+func (t *Target) buildSOpt(ch *Chooser, base int, o sOpts) (interface{}, *SBuilder) {
+	v := t.New()
+	b := &SBuilder{Ch: ch, Base: base, Only: o.Only, Wide: o.Wide}
+	if o.RandN > 0 {
+		b.Rand = rand.New(rand.NewSource(o.Seed))
+		b.RandN = o.RandN
+	}
+	b.Build(reflect.ValueOf(v).Elem(), t.Root)
+	return v, b
+}
+
 // forEachS enumerates the struct alphabet of the target (DESIGN.md §3.6) and
 // calls fn once per distinct value.
 func (t *Target) forEachS(tier string, r *Result, fn func(s interface{}, w SWitness)) {
+	t.forEachSOpt(tier, r, sOpts{}, fn)
+}
+
+func (t *Target) forEachSOpt(tier string, r *Result, o sOpts, fn func(s interface{}, w SWitness)) {
 	tc := tierOf(tier)
-	_, capped := Explore(-1, tc.fullLimit, func(ch *Chooser) { t.buildS(ch, BaseZero, nil) })
+	if o.K > 0 {
+		tc.k = o.K
+	}
+	bases := o.Bases
+	if bases == nil {
+		bases = []int{BaseZero, BaseMin, BaseFull}
+	}
+	_, capped := Explore(-1, tc.fullLimit, func(ch *Chooser) { t.buildSOpt(ch, BaseZero, o) })
 	seen := map[string]bool{}
 	run := func(base int) func(ch *Chooser) {
 		return func(ch *Chooser) {
-			s, b := t.buildS(ch, base, nil)
+			s, b := t.buildSOpt(ch, base, o)
 			key := CanonS(s)
 			r.Evals++
 			if seen[key] {
@@ -59,7 +92,7 @@ func (t *Target) forEachS(tier string, r *Result, fn func(s interface{}, w SWitn
 	} else {
 		// choose the largest deviation bound whose execution count fits the budget
 		probe := &Chooser{}
-		t.buildS(probe, BaseFull, nil)
+		t.buildSOpt(probe, BaseFull, o)
 		alts := 0
 		for _, a := range probe.Arity {
 			alts += a - 1
@@ -68,13 +101,13 @@ func (t *Target) forEachS(tier string, r *Result, fn func(s interface{}, w SWitn
 		for k > 1 && estimate(alts, k) > tc.budget {
 			k--
 		}
-		for base := 0; base < NumBases; base++ {
+		for _, base := range bases {
 			_, c := Explore(k, tc.budget, run(base))
 			if c {
 				r.Capped = true
 			}
 		}
-		r.Bound = fmt.Sprintf("deviation bound k=%d around %d bases", k, NumBases)
+		r.Bound = fmt.Sprintf("deviation bound k=%d around %d bases", k, len(bases))
 	}
 	r.States += len(seen)
 	r.Nontrivial = len(seen)
@@ -524,7 +557,59 @@ func rootOf(v visit, root reflect.Value) reflect.Value {
 	return root
 }
 
+// procC19: exact survival of scalar-like leaves over the full boundary sets.
+func procC19(t *Target, tier string, r *Result) {
+	schema := t.GetSchema()
+	excl := exclFor(t.Spec)
+	run := func(o sOpts, tag string) {
+		t.forEachSOpt(tier, r, o, func(s interface{}, w SWitness) {
+			w.Ops = []string{"SetS", "EmptyO", "To", "FreshS", "From"}
+			want := NormS(s, excl)
+			ob := EmptyObject(schema)
+			res := t.callTo(s, &ob)
+			r.Transitions++
+			r.sample(w)
+			if res.Panicked || len(res.errs()) > 0 {
+				r.outcome(tag + "/to-failed")
+				return // totality is C03's claim
+			}
+			fresh := t.New()
+			res = t.callFrom(ob, fresh)
+			r.Transitions++
+			if res.Panicked || len(res.errs()) > 0 {
+				r.outcome(tag + "/from-failed")
+				return
+			}
+			got := NormS(fresh, excl)
+			if got == want {
+				r.outcome(tag + "/exact")
+				return
+			}
+			sh, detail := firstDiff(t.Spec, reflect.ValueOf(s).Elem(), reflect.ValueOf(fresh).Elem(), excl)
+			if !scalarLike(sh) {
+				r.outcome(tag + "/structural-loss")
+				return // not a scalar conversion: C04's claim
+			}
+			r.outcome(tag + "/inexact")
+			r.violate("inexact", sh, "scalar value does not survive conversion: "+detail, w)
+		})
+	}
+	run(sOpts{Wide: true, Bases: []int{BaseMin, BaseFull}}, "boundary")
+	seed := int64(Seed)
+	run(sOpts{Wide: true, Bases: []int{BaseMin}, K: 1, RandN: 4, Seed: seed + 1}, "random")
+}
+
+// scalarLike tells whether the innermost attribute of a shape chain is a scalar-like leaf or a collection of them.
+func scalarLike(chainStr string) bool {
+	last := chainStr
+	if i := strings.LastIndex(chainStr, ">"); i >= 0 {
+		last = chainStr[i+1:]
+	}
+	return strings.HasPrefix(last, "prim:") || strings.HasPrefix(last, "list<") || strings.HasPrefix(last, "map<")
+}
+
 func init() {
+	procs["C19"] = procC19
 	procs["C03"] = procC03
 	procs["C04"] = procC04
 	procs["C20"] = procC20
